@@ -278,10 +278,68 @@ pub fn ipa_cross_key(rec: &mut Rec) {
     }
 }
 
+/// Errors that cancel across query points once the (publicly computable) opening challenges are
+/// taken into account: delta_a = xi_c, delta_c = -xi_a for one polynomial per point. A batch verifier
+/// whose per-point randomizers are constant or reused accepts these; a correct one does not.
+pub fn challenge_aware<S: Sch>(rec: &mut Rec, squeezes_per_poly: usize, leading_squeeze: bool) {
+    use crate::refm::challenge;
+    let cfg = slice_b::<S>();
+    let keys = match build_keys::<S>(&cfg, rec.seed) {
+        Ok(k) => k,
+        Err(_) => return,
+    };
+    let shapes = S::shapes(&cfg, rec.seed);
+    let dense: Vec<S::P> = shapes.iter().filter(|(n, _)| n.starts_with("dense") || n.starts_with("mono")).map(|(_, p)| p.clone()).collect();
+    if dense.len() < 2 {
+        return;
+    }
+    let labels = slice_b_labels::<S>(&cfg, rec.seed);
+    for hid in [None, if S::HIDING { Some(1usize) } else { None }] {
+        let id = format!("{}/C05/challenge-aware/h={:?}", S::NAME, hid);
+        if hid.is_none() && S::HIDING && false {
+            continue;
+        }
+        if !rec.take(&id) {
+            continue;
+        }
+        rec.dim("scheme", S::NAME);
+        let polys = vec![lp::<S>("q0", dense[dense.len() - 1].clone(), None, hid), lp::<S>("q1", dense[dense.len() - 2].clone(), None, hid)];
+        let c = match commit_set::<S>(&keys, polys, rec.seed, 0) {
+            Ok(c) => c,
+            Err(_) => continue,
+        };
+        let mut qs = QuerySet::<S::Pt>::new();
+        qs.insert(("q0".into(), (labels[0].0.clone(), labels[0].1.clone())));
+        qs.insert(("q1".into(), (labels[2].0.clone(), labels[2].1.clone())));
+        let b = match open_batch::<S>(&keys, &c, &[0, 1], &qs, 0, rec.seed, 0) {
+            Ok(b) => b,
+            Err(_) => continue,
+        };
+        // replay the challenge schedule on a fresh sponge: group "a" (q0) first, then group "c" (q1)
+        let mut sp = sponge_pre::<S::F>(0);
+        let xi_a: S::F = challenge(&mut sp);
+        for _ in 1..squeezes_per_poly {
+            let _: S::F = challenge(&mut sp);
+        }
+        let xi_c: S::F = challenge(&mut sp);
+        let _ = leading_squeeze;
+        let list: Vec<Pf<S>> = b.proof.clone().into();
+        let comms: Vec<&LCm<S>> = c.comms.iter().collect();
+        let mut ev = b.evals.clone();
+        *ev.get_mut(&("q0".to_string(), labels[0].1.clone())).unwrap() += xi_c;
+        *ev.get_mut(&("q1".to_string(), labels[2].1.clone())).unwrap() -= xi_a;
+        compare::<S>(rec, &id, "challenge-aware-cancelling", &keys, &comms, &qs, &ev, &list, "delta(q0@a) = xi_c, delta(q1@c) = -xi_a", &[0, 1, 2]);
+    }
+}
+
 pub fn run(rec: &mut Rec) {
     crate::for_each_scheme!(S, {
         scheme::<S>(rec);
     });
     ipa_cross_key(rec);
+    // Marlin / PST13: one squeeze per (unbounded) polynomial; Sonic: one before the loop and one after each polynomial
+    challenge_aware::<SMar>(rec, 1, false);
+    challenge_aware::<SPst>(rec, 1, false);
+    challenge_aware::<SSon>(rec, 2, true);
     crate::special::c05_special(rec);
 }
